@@ -12,6 +12,8 @@ package c2
 
 import (
 	"context"
+	"fmt"
+	"sync"
 	"sync/atomic"
 	"time"
 
@@ -325,4 +327,47 @@ func (v *VerifC16Session) StopTick() {
 	if v.S.tick != nil {
 		v.S.tick.Stop()
 	}
+}
+
+// VerifC16CloseWithoutSocket closes a Listener that has no socket: the state Listener.Replace leaves
+// behind between dropping the old socket and binding the new one (stateReplacing set, listener nil),
+// which is also the state in which Replace itself calls Close when the new address cannot be bound.
+// The real listen() goroutine runs (it idles while replacing). Returns the panic text (if any) and
+// whether Close returned with the Listener's Done channel closed.
+func VerifC16CloseWithoutSocket(callers int) (panicked string, returned, closed bool) {
+	e := VerifC15NewEnv()
+	defer e.Close()
+	l := e.L
+	l.state.Set(stateReplacing)
+	go l.listen()
+	time.Sleep(2 * time.Millisecond)
+	var mu sync.Mutex
+	done := make(chan struct{}, callers)
+	for i := 0; i < callers; i++ {
+		go func() {
+			defer func() {
+				if r := recover(); r != nil {
+					mu.Lock()
+					panicked = fmt.Sprint(r)
+					mu.Unlock()
+				}
+				done <- struct{}{}
+			}()
+			l.Close()
+		}()
+	}
+	returned = true
+	for i := 0; i < callers; i++ {
+		select {
+		case <-done:
+		case <-time.After(5 * time.Second):
+			returned = false
+		}
+	}
+	select {
+	case <-l.ch:
+		closed = true
+	default:
+	}
+	return
 }
